@@ -170,27 +170,27 @@ Qed.
 Section TrajFacts.
   Variable routers : N -> router.
   Variable accepts : N -> N -> bool.
-  Variable topo : N -> N -> N -> option node.
+  Variable topo : nat -> N -> N -> N -> option node.
 
   Notation traj := (traj routers accepts topo).
   Notation trajectory := (trajectory routers accepts topo).
 
   (* unfolding of one router step that forwards *)
-  Lemma traj_router_inv f r p l e :
-    traj (S f) (NRouter r) p = (l, e) ->
+  Lemma traj_router_inv f k r p l e :
+    traj (S f) k (NRouter r) p = (l, e) ->
     (l = [] /\ (e = EFuel \/ e = ETtl r \/ e = ENoRoute r \/ e = ENoArp r \/ exists s, e = EPanic r s)) \/
     exists slot nh p' n' l',
       route_step (routers r) p = Ok (AForward slot nh p') /\
-      topo r slot nh = Some n' /\
+      topo k r slot nh = Some n' /\
       send_step (routers r) slot p' = Ok p' /\
-      traj f n' p' = (l', e) /\ l = mkHop r slot nh n' p' :: l'.
+      traj f (S k) n' p' = (l', e) /\ l = mkHop r slot nh n' p' :: l'.
   Proof.
     cbn [Router.traj]. intros H.
     destruct (route_step (routers r) p) as [[| slot nh p'] | | |] eqn:ER.
     - left. inversion H. split; [reflexivity |]. right. left. reflexivity.
-    - destruct (topo r slot nh) as [n' |] eqn:ET.
+    - destruct (topo k r slot nh) as [n' |] eqn:ET.
       + destruct (send_step_cases (routers r) slot p') as [ES | [s ES]]; rewrite ES in H.
-        * destruct (traj f n' p') as [l' e'] eqn:EJ. inversion H; subst.
+        * destruct (traj f (S k) n' p') as [l' e'] eqn:EJ. inversion H; subst.
           right. exists slot, nh, p', n', l'. repeat split; assumption.
         * left. inversion H. split; [reflexivity |]. right. right. right. right. eauto.
       + left. inversion H. split; [reflexivity |]. right. right. right. left. reflexivity.
@@ -199,15 +199,15 @@ Section TrajFacts.
     - left. inversion H. split; [reflexivity |]. left. reflexivity.
   Qed.
 
-  Lemma traj_host f h p : traj (S f) (NHost h) p =
+  Lemma traj_host f k h p : traj (S f) k (NHost h) p =
     if accepts h (p_dst p) then ([], EDelivered h) else ([], EHostDrop h).
   Proof. reflexivity. Qed.
 
   (* TTL is a measure: the number of forwarded frames is below the TTL at the start *)
-  Lemma traj_len : forall f at_ p l e, traj f at_ p = (l, e) ->
+  Lemma traj_len : forall f k at_ p l e, traj f k at_ p = (l, e) ->
     N.of_nat (length l) <= p_ttl p - 1.
   Proof.
-    induction f as [| f IH]; intros at_ p l e H.
+    induction f as [| f IH]; intros k at_ p l e H.
     - cbn in H. inversion H. cbn. lia.
     - destruct at_ as [r | h].
       + apply traj_router_inv in H.
@@ -218,29 +218,29 @@ Section TrajFacts.
       + rewrite traj_host in H. destruct (accepts h (p_dst p)); inversion H; cbn; lia.
   Qed.
 
-  (* each hop decrements by one: the k-th forwarded frame carries TTL - (k+1) *)
-  Lemma traj_ttl : forall f at_ p l e, traj f at_ p = (l, e) ->
-    forall k h, nth_error l k = Some h -> p_ttl (ho_pkt h) + N.of_nat (S k) = p_ttl p.
+  (* each hop decrements by one: the i-th forwarded frame carries TTL - (i+1) *)
+  Lemma traj_ttl : forall f k at_ p l e, traj f k at_ p = (l, e) ->
+    forall i h, nth_error l i = Some h -> p_ttl (ho_pkt h) + N.of_nat (S i) = p_ttl p.
   Proof.
-    induction f as [| f IH]; intros at_ p l e H k h Hk.
-    - cbn in H. inversion H; subst. destruct k; discriminate.
+    induction f as [| f IH]; intros k at_ p l e H i h Hi.
+    - cbn in H. inversion H; subst. destruct i; discriminate.
     - destruct at_ as [r | hh].
       + apply traj_router_inv in H.
         destruct H as [[-> _] | (slot & nh & p' & n' & l' & ER & _ & _ & EJ & ->)].
-        * destruct k; discriminate.
+        * destruct i; discriminate.
         * apply route_step_forward in ER. destruct ER as (T & -> & _).
-          destruct k as [| k].
-          -- cbn in Hk. inversion Hk; subst. cbn [ho_pkt p_ttl set_ttl]. lia.
-          -- cbn [nth_error] in Hk. pose proof (IH _ _ _ _ EJ k h Hk) as X.
+          destruct i as [| i].
+          -- cbn in Hi. inversion Hi; subst. cbn [ho_pkt p_ttl set_ttl]. lia.
+          -- cbn [nth_error] in Hi. pose proof (IH _ _ _ _ _ EJ i h Hi) as X.
              cbn [p_ttl set_ttl] in X. lia.
       + rewrite traj_host in H. destruct (accepts hh (p_dst p)); inversion H; subst;
-          destruct k; discriminate.
+          destruct i; discriminate.
   Qed.
 
-  Lemma traj_ttl_pos : forall f at_ p l e, traj f at_ p = (l, e) ->
+  Lemma traj_ttl_pos : forall f k at_ p l e, traj f k at_ p = (l, e) ->
     forall h, In h l -> 1 <= p_ttl (ho_pkt h).
   Proof.
-    induction f as [| f IH]; intros at_ p l e H h Hin.
+    induction f as [| f IH]; intros k at_ p l e H h Hin.
     - cbn in H. inversion H; subst. destruct Hin.
     - destruct at_ as [r | hh].
       + apply traj_router_inv in H.
@@ -249,16 +249,16 @@ Section TrajFacts.
         * apply route_step_forward in ER. destruct ER as (T & -> & _).
           destruct Hin as [<- | Hin].
           -- cbn [ho_pkt p_ttl set_ttl]. lia.
-          -- exact (IH _ _ _ _ EJ h Hin).
+          -- exact (IH _ _ _ _ _ EJ h Hin).
       + rewrite traj_host in H. destruct (accepts hh (p_dst p)); inversion H; subst;
           destruct Hin.
   Qed.
 
   (* nothing but the TTL changes on the way *)
-  Lemma traj_same : forall f at_ p l e, traj f at_ p = (l, e) ->
+  Lemma traj_same : forall f k at_ p l e, traj f k at_ p = (l, e) ->
     forall h, In h l -> same_but_ttl p (ho_pkt h).
   Proof.
-    induction f as [| f IH]; intros at_ p l e H h Hin.
+    induction f as [| f IH]; intros k at_ p l e H h Hin.
     - cbn in H. inversion H; subst. destruct Hin.
     - destruct at_ as [r | hh].
       + apply traj_router_inv in H.
@@ -267,26 +267,26 @@ Section TrajFacts.
         * apply route_step_forward in ER. destruct ER as (T & -> & _).
           destruct Hin as [<- | Hin].
           -- cbn [ho_pkt]. apply same_but_ttl_set.
-          -- eapply same_but_ttl_trans; [apply same_but_ttl_set | exact (IH _ _ _ _ EJ h Hin)].
+          -- eapply same_but_ttl_trans; [apply same_but_ttl_set | exact (IH _ _ _ _ _ EJ h Hin)].
       + rewrite traj_host in H. destruct (accepts hh (p_dst p)); inversion H; subst;
           destruct Hin.
   Qed.
 
   (* enough fuel: the model artefact never shows *)
-  Lemma traj_no_fuel : forall f at_ p, (N.to_nat (p_ttl p) < f)%nat ->
-    snd (traj f at_ p) <> EFuel.
+  Lemma traj_no_fuel : forall f k at_ p, (N.to_nat (p_ttl p) < f)%nat ->
+    snd (traj f k at_ p) <> EFuel.
   Proof.
-    induction f as [| f IH]; intros at_ p Hf; [lia |].
-    destruct (traj (S f) at_ p) as [l e] eqn:H. cbn [snd].
+    induction f as [| f IH]; intros k at_ p Hf; [lia |].
+    destruct (traj (S f) k at_ p) as [l e] eqn:H. cbn [snd].
     destruct at_ as [r | hh].
     - pose proof H as H0. cbn [Router.traj] in H0.
       destruct (route_step (routers r) p) as [[| slot nh p'] | | |] eqn:ER.
       + inversion H0. discriminate.
-      + destruct (topo r slot nh) as [n' |].
+      + destruct (topo k r slot nh) as [n' |].
         * destruct (send_step_cases (routers r) slot p') as [ES | [s ES]]; rewrite ES in H0.
           -- apply route_step_forward in ER. destruct ER as (T & -> & _).
-             specialize (IH n' (set_ttl p (p_ttl p - 1))).
-             destruct (traj f n' (set_ttl p (p_ttl p - 1))) as [l' e'].
+             specialize (IH (S k) n' (set_ttl p (p_ttl p - 1))).
+             destruct (traj f (S k) n' (set_ttl p (p_ttl p - 1))) as [l' e'].
              inversion H0; subst. cbn [snd] in IH. apply IH. cbn [p_ttl set_ttl]. lia.
           -- inversion H0. discriminate.
         * inversion H0. discriminate.
@@ -297,15 +297,19 @@ Section TrajFacts.
   Qed.
 
   (* ---------------- the path is the one the tables define *)
+  (* the table part of a hop: slot and next hop are what the lookup of the destination yields *)
   Definition hop_ok (dst : N) (h : hopobs) : Prop :=
     exists gw, get_recipient (r_table (routers (ho_router h))) dst = Some (gw, ho_slot h) /\
-               ho_nh h = next_hop_of gw dst /\
-               topo (ho_router h) (ho_slot h) (ho_nh h) = Some (ho_to h).
+               ho_nh h = next_hop_of gw dst.
 
-  Fixpoint chain (at_ : node) (l : list hopobs) : Prop :=
+  (* the topology part: the k-th frame is sent by the node that received the previous one, to the
+     node that answers (at that moment) for the next hop on the outgoing slot *)
+  Fixpoint chain (k : nat) (at_ : node) (l : list hopobs) : Prop :=
     match l with
     | [] => True
-    | h :: r => at_ = NRouter (ho_router h) /\ chain (ho_to h) r
+    | h :: r => at_ = NRouter (ho_router h) /\
+                topo k (ho_router h) (ho_slot h) (ho_nh h) = Some (ho_to h) /\
+                chain (S k) (ho_to h) r
     end.
 
   Definition last_node (start : node) (l : list hopobs) : node :=
@@ -321,21 +325,22 @@ Section TrajFacts.
   Lemma last_node_cons start h l : last_node start (h :: l) = last_node (ho_to h) l.
   Proof. unfold last_node. cbn [map]. apply last_cons_default. Qed.
 
-  Lemma traj_chain : forall f at_ p l e, traj f at_ p = (l, e) ->
-    chain at_ l /\ Forall (hop_ok (p_dst p)) l.
+  Lemma traj_chain : forall f k at_ p l e, traj f k at_ p = (l, e) ->
+    chain k at_ l /\ Forall (hop_ok (p_dst p)) l.
   Proof.
-    induction f as [| f IH]; intros at_ p l e H.
+    induction f as [| f IH]; intros k at_ p l e H.
     - cbn in H. inversion H. split; [exact I | constructor].
     - destruct at_ as [r | hh].
       + apply traj_router_inv in H.
         destruct H as [[-> _] | (slot & nh & p' & n' & l' & ER & ET & _ & EJ & ->)].
         * split; [exact I | constructor].
         * apply route_step_forward in ER. destruct ER as (T & -> & gw & G & -> & _ & _).
-          destruct (IH _ _ _ _ EJ) as [C F]. cbn [p_dst set_ttl] in F.
+          destruct (IH _ _ _ _ _ EJ) as [C F]. cbn [p_dst set_ttl] in F.
           split.
-          -- cbn [chain ho_router ho_to]. split; [reflexivity | exact C].
+          -- cbn [chain ho_router ho_to ho_slot ho_nh].
+             split; [reflexivity |]. split; [exact ET | exact C].
           -- constructor; [| exact F].
-             exists gw. cbn [ho_router ho_slot ho_nh ho_to]. repeat split; assumption.
+             exists gw. cbn [ho_router ho_slot ho_nh]. split; [exact G | reflexivity].
       + rewrite traj_host in H. destruct (accepts hh (p_dst p)); inversion H;
           (split; [exact I | constructor]).
   Qed.
@@ -343,7 +348,7 @@ Section TrajFacts.
   (* where and why the trajectory ends *)
   Definition ttl_at_end (p : pkt) (l : list hopobs) : N := p_ttl p - N.of_nat (length l).
 
-  Definition ending_ok (start : node) (p : pkt) (l : list hopobs) (e : ending) : Prop :=
+  Definition ending_ok (k : nat) (start : node) (p : pkt) (l : list hopobs) (e : ending) : Prop :=
     match e with
     | EDelivered h => last_node start l = NHost h /\ accepts h (p_dst p) = true
     | EHostDrop h => last_node start l = NHost h /\ accepts h (p_dst p) = false
@@ -352,30 +357,31 @@ Section TrajFacts.
                     get_recipient (r_table (routers r)) (p_dst p) = None
     | ENoArp r => last_node start l = NRouter r /\ 2 <= ttl_at_end p l /\
                   exists gw slot, get_recipient (r_table (routers r)) (p_dst p) = Some (gw, slot) /\
-                                  topo r slot (next_hop_of gw (p_dst p)) = None
+                                  topo (k + length l)%nat r slot (next_hop_of gw (p_dst p)) = None
     | EPanic r _ => last_node start l = NRouter r
     | EFuel => True
     end.
 
-  Lemma traj_ending : forall f at_ p l e, wf_pkt p -> traj f at_ p = (l, e) ->
-    ending_ok at_ p l e.
+  Lemma traj_ending : forall f k at_ p l e, wf_pkt p -> traj f k at_ p = (l, e) ->
+    ending_ok k at_ p l e.
   Proof.
-    induction f as [| f IH]; intros at_ p l e W H.
+    induction f as [| f IH]; intros k at_ p l e W H.
     - cbn in H. inversion H. exact I.
     - destruct at_ as [r | hh].
       + pose proof H as H0. cbn [Router.traj] in H0.
         destruct (route_step (routers r) p) as [[| slot nh p'] | er | s |] eqn:ER.
         * inversion H0; subst. cbn. split; [reflexivity |].
           apply route_step_drop in ER. unfold ttl_at_end. cbn. lia.
-        * destruct (topo r slot nh) as [n' |] eqn:ET.
+        * destruct (topo k r slot nh) as [n' |] eqn:ET.
           -- destruct (send_step_cases (routers r) slot p') as [ES | [s ES]]; rewrite ES in H0.
-             ++ destruct (traj f n' p') as [l' e'] eqn:EJ. inversion H0; subst.
+             ++ destruct (traj f (S k) n' p') as [l' e'] eqn:EJ. inversion H0; subst.
                 apply route_step_forward in ER. destruct ER as (T & -> & gw & G & -> & _ & _).
                 assert (W' : wf_pkt (set_ttl p (p_ttl p - 1))) by exact W.
-                pose proof (IH _ _ _ _ W' EJ) as X.
-                pose proof (traj_len _ _ _ _ _ EJ) as L. cbn [p_ttl set_ttl] in L.
+                pose proof (IH _ _ _ _ _ W' EJ) as X.
+                pose proof (traj_len _ _ _ _ _ _ EJ) as L. cbn [p_ttl set_ttl] in L.
                 unfold ending_ok in *. rewrite last_node_cons. cbn [ho_to].
                 unfold ttl_at_end in *. cbn [length p_ttl p_dst set_ttl] in *.
+                replace (k + S (length l'))%nat with (S k + length l')%nat by lia.
                 destruct e; try exact X; try (destruct X as [X1 X2]; split; [exact X1 |]).
                 ** lia.
                 ** destruct X2 as [X2 X3]. split; [lia | exact X3].
@@ -384,7 +390,7 @@ Section TrajFacts.
           -- inversion H0; subst. cbn.
              apply route_step_forward in ER. destruct ER as (T & -> & gw & G & -> & _ & _).
              split; [reflexivity |]. split; [unfold ttl_at_end; cbn; lia |].
-             exists gw, slot. split; assumption.
+             exists gw, slot. replace (k + 0)%nat with k by lia. split; assumption.
         * inversion H0; subst. cbn.
           destruct (route_step_err _ _ _ W ER) as [T G].
           split; [reflexivity |]. split; [unfold ttl_at_end; cbn; lia | exact G].
@@ -406,12 +412,12 @@ Section TrajFacts.
   Proof. unfold Router.trajectory. apply traj_no_fuel. lia. Qed.
 
   Lemma ttl_decrements start p l e : trajectory start p = (l, e) ->
-    forall k h, nth_error l k = Some h ->
-      p_ttl (ho_pkt h) + N.of_nat (S k) = p_ttl p /\ 1 <= p_ttl (ho_pkt h).
+    forall i h, nth_error l i = Some h ->
+      p_ttl (ho_pkt h) + N.of_nat (S i) = p_ttl p /\ 1 <= p_ttl (ho_pkt h).
   Proof.
-    unfold Router.trajectory. intros H k h Hk. split.
-    - exact (traj_ttl _ _ _ _ _ H k h Hk).
-    - apply (traj_ttl_pos _ _ _ _ _ H). eapply nth_error_In; exact Hk.
+    unfold Router.trajectory. intros H i h Hi. split.
+    - exact (traj_ttl _ _ _ _ _ _ H i h Hi).
+    - apply (traj_ttl_pos _ _ _ _ _ _ H). eapply nth_error_In; exact Hi.
   Qed.
 
   (* forwarding never multiplies: no two frames of a trajectory carry the same TTL *)
@@ -430,13 +436,13 @@ Section TrajFacts.
 
   Lemma payload_unchanged start p l e : trajectory start p = (l, e) ->
     forall h, In h l -> same_but_ttl p (ho_pkt h).
-  Proof. unfold Router.trajectory. intros H. exact (traj_same _ _ _ _ _ H). Qed.
+  Proof. unfold Router.trajectory. intros H. exact (traj_same _ _ _ _ _ _ H). Qed.
 
   Lemma follows_route start p l e : wf_pkt p -> trajectory start p = (l, e) ->
-    chain start l /\ Forall (hop_ok (p_dst p)) l /\ ending_ok start p l e.
+    chain O start l /\ Forall (hop_ok (p_dst p)) l /\ ending_ok O start p l e.
   Proof.
-    unfold Router.trajectory. intros W H. destruct (traj_chain _ _ _ _ _ H) as [C F].
-    split; [exact C |]. split; [exact F |]. exact (traj_ending _ _ _ _ _ W H).
+    unfold Router.trajectory. intros W H. destruct (traj_chain _ _ _ _ _ _ H) as [C F].
+    split; [exact C |]. split; [exact F |]. exact (traj_ending _ _ _ _ _ _ W H).
   Qed.
 
   (* with tables built through the public interface (C09: tbl_inv), "the route" is the
@@ -448,24 +454,23 @@ Section TrajFacts.
                    contains n (p_dst p) = true /\
                    (forall n' v', In (n', v') (tbl_iter (r_table (routers (ho_router h)))) ->
                                   contains n' (p_dst p) = true -> masklen n' <= masklen n) /\
-                   ho_nh h = next_hop_of gw (p_dst p) /\
-                   topo (ho_router h) (ho_slot h) (ho_nh h) = Some (ho_to h).
+                   ho_nh h = next_hop_of gw (p_dst p).
   Proof.
     unfold Router.trajectory. intros Inv H h Hin.
-    destruct (traj_chain _ _ _ _ _ H) as [_ F].
-    rewrite Forall_forall in F. destruct (F h Hin) as (gw & G & Hn & Ht).
+    destruct (traj_chain _ _ _ _ _ _ H) as [_ F].
+    rewrite Forall_forall in F. destruct (F h Hin) as (gw & G & Hn).
     apply (proj1 (lpm_some _ _ _ (Inv (ho_router h)))) in G.
     destruct G as (n & I1 & I2 & I3). exists n, gw. repeat split; assumption.
   Qed.
 
-  (* delivered to the owner of the destination address and to nobody else *)
+  (* delivered only where a listen binding takes the destination address *)
   Lemma only_destination start p l e : trajectory start p = (l, e) ->
     forall h, e = EDelivered h -> accepts h (p_dst p) = true /\ last_node start l = NHost h.
   Proof.
     unfold Router.trajectory. intros H h ->.
-    assert (X : forall f at_ q l', traj f at_ q = (l', EDelivered h) ->
+    assert (X : forall f k at_ q l', traj f k at_ q = (l', EDelivered h) ->
                 accepts h (p_dst q) = true /\ last_node at_ l' = NHost h).
-    { induction f as [| f IH]; intros at_ q l' HJ.
+    { induction f as [| f IH]; intros k at_ q l' HJ.
       - cbn in HJ. inversion HJ.
       - destruct at_ as [r | hh].
         + apply traj_router_inv in HJ.
@@ -473,35 +478,35 @@ Section TrajFacts.
                           (slot & nh & p' & n' & l'' & ER & _ & _ & EJ & ->)];
             try discriminate.
           apply route_step_forward in ER. destruct ER as (_ & -> & _).
-          destruct (IH _ _ _ EJ) as [A B]. cbn [p_dst set_ttl] in A.
+          destruct (IH _ _ _ _ EJ) as [A B]. cbn [p_dst set_ttl] in A.
           split; [exact A |]. rewrite last_node_cons. exact B.
         + rewrite traj_host in HJ. destruct (accepts hh (p_dst q)) eqn:E; inversion HJ; subst.
           split; [exact E | reflexivity]. }
-    exact (X _ _ _ _ H).
+    exact (X _ _ _ _ _ H).
   Qed.
 
   (* ---------------- correct routes deliver *)
   (* a ranking certifies loop-free correct routes for the datagram p0 towards host hd: every
-     router on the way (P) forwards the datagram, whatever its remaining TTL >= 2, without
-     failing, either to hd or to a router on the way of smaller rank *)
+     router on the way (P) forwards the datagram, whatever its remaining TTL >= 2 and whenever it
+     comes, without failing, either to hd or to a router on the way of smaller rank *)
   Definition ranked (p0 : pkt) (hd : N) (P : N -> Prop) (rank : N -> nat) : Prop :=
     accepts hd (p_dst p0) = true /\
-    forall r p, P r -> same_but_ttl p0 p -> 2 <= p_ttl p ->
+    forall k r p, P r -> same_but_ttl p0 p -> 2 <= p_ttl p ->
       exists slot nh n',
         route_step (routers r) p = Ok (AForward slot nh (set_ttl p (p_ttl p - 1))) /\
-        topo r slot nh = Some n' /\
+        topo k r slot nh = Some n' /\
         send_step (routers r) slot (set_ttl p (p_ttl p - 1)) = Ok (set_ttl p (p_ttl p - 1)) /\
         (n' = NHost hd \/ exists r', n' = NRouter r' /\ P r' /\ (rank r' < rank r)%nat).
 
   Lemma delivered_ranked p0 hd P rank : ranked p0 hd P rank ->
-    forall f r p, P r -> same_but_ttl p0 p -> (rank r + 2 <= N.to_nat (p_ttl p))%nat ->
+    forall f k r p, P r -> same_but_ttl p0 p -> (rank r + 2 <= N.to_nat (p_ttl p))%nat ->
       (rank r + 2 <= f)%nat ->
-      exists l, traj f (NRouter r) p = (l, EDelivered hd) /\ (length l <= S (rank r))%nat.
+      exists l, traj f k (NRouter r) p = (l, EDelivered hd) /\ (length l <= S (rank r))%nat.
   Proof.
     intros (Hip & RR).
-    induction f as [| f IH]; intros r p Pr Hs Ht Hf; [lia |].
+    induction f as [| f IH]; intros k r p Pr Hs Ht Hf; [lia |].
     assert (T : 2 <= p_ttl p) by lia.
-    destruct (RR r p Pr Hs T) as (slot & nh & n' & ER & ET & ES & Hn).
+    destruct (RR k r p Pr Hs T) as (slot & nh & n' & ER & ET & ES & Hn).
     assert (Hs' : same_but_ttl p0 (set_ttl p (p_ttl p - 1))).
     { eapply same_but_ttl_trans; [exact Hs | apply same_but_ttl_set]. }
     destruct Hn as [-> | (r' & -> & Pr' & Hr)].
@@ -510,7 +515,7 @@ Section TrajFacts.
       destruct f as [| f']; [lia |]. rewrite traj_host.
       destruct Hs' as (_ & D & _). rewrite D, Hip.
       split; [reflexivity | cbn; lia].
-    - destruct (IH r' (set_ttl p (p_ttl p - 1)) Pr' Hs') as (l & HJ & HL).
+    - destruct (IH (S k) r' (set_ttl p (p_ttl p - 1)) Pr' Hs') as (l & HJ & HL).
       + cbn [p_ttl set_ttl]. lia.
       + lia.
       + exists (mkHop r slot nh (NRouter r') (set_ttl p (p_ttl p - 1)) :: l).
@@ -588,6 +593,16 @@ Proof.
   pose proof (H i fi Ei). pose proof (H j fj Ej). lia.
 Qed.
 
+Lemma chain_ideal c topo : forall hs k n, chain topo k n hs -> ideal_hops c hs = true ->
+  chain (fun _ => cfg_topo c) k n hs.
+Proof.
+  induction hs as [| h hs IH]; intros k n C I; [exact I |].
+  cbn [chain] in *. destruct C as (C1 & _ & C3).
+  cbn [ideal_hops forallb] in I. apply andb_prop in I. destruct I as [I1 I2].
+  apply onode_eqb_eq in I1.
+  split; [exact C1 |]. split; [exact I1 |]. exact (IH _ _ C3 I2).
+Qed.
+
 (* what the property says about the frames and deliveries of ONE datagram *)
 Definition dgram_property (c : cfg) (d : dgram) (fs : list frame) (xs : list rx) : Prop :=
   match fs with
@@ -607,11 +622,14 @@ Definition dgram_property (c : cfg) (d : dgram) (fs : list frame) (xs : list rx)
       (* never multiplied *)
       NoDup (map (fun f => p_ttl (f_pkt f)) fs) /\
       (* hop by hop along the configured routes *)
+      (* (the receivers are the observed ones; if ARP behaved on every hop - [ideal_hops] - they
+         are the owners of the next-hop addresses: the path the configuration defines) *)
       exists n0 hs e,
         f_to f0 = Some n0 /\ rest = map (hop_frame c) hs /\
-        chain n0 hs /\
-        Forall (hop_ok (cfg_router c) (cfg_topo c) (d_dst d)) hs /\
-        ending_ok (cfg_router c) (cfg_accepts c) (cfg_topo c) n0 p0 hs e /\
+        chain (obs_topo c rest) O n0 hs /\
+        Forall (hop_ok (cfg_router c) (d_dst d)) hs /\
+        ending_ok (cfg_router c) (cfg_accepts c) (obs_topo c rest) O n0 p0 hs e /\
+        (ideal_hops c hs = true -> chain (fun _ => cfg_topo c) O n0 hs) /\
         (* delivered to the destination host's application and to nobody else *)
         match xs with
         | [] => forall h, e <> EDelivered h
@@ -638,9 +656,9 @@ Proof.
   apply N.leb_le in X1. apply N.leb_le in X0. apply list_eqb_eq in X.
   rewrite EO in X5.
   unfold expect_rest in H. rewrite X5 in H.
-  destruct (cfg_trajectory c n0' (f_pkt f0)) as [hs e] eqn:ET.
+  destruct (trajectory (cfg_router c) (cfg_accepts c) (obs_topo c rest) n0' (f_pkt f0))
+    as [hs e] eqn:ET.
   apply andb_prop in H. destruct H as [HR HE]. apply frames_eqb_eq in HR.
-  unfold cfg_trajectory in ET.
   assert (W : wf_pkt (f_pkt f0)) by (split; assumption).
   pose proof (follows_route _ _ _ _ _ _ _ W ET) as (C & F & EOK).
   pose proof (bounded _ _ _ _ _ _ _ ET) as [_ B].
@@ -668,6 +686,7 @@ Proof.
   split; [exact (nodup_by_offset _ _ _ TT) |].
   exists n0', hs, e. split; [exact X5 |]. split; [exact HR |]. split; [exact C |].
   rewrite X2 in F. split; [exact F |]. split; [exact EOK |].
+  split; [exact (chain_ideal _ _ _ _ _ C) |].
   destruct e as [j | j | r | r | r | r s |]; try discriminate.
   - destruct xs as [| x [| x' xs']]; try discriminate.
     apply rx_eqb_eq in HE. subst x. cbn [x_host x_src x_dst x_data].
@@ -716,7 +735,7 @@ Qed.
 (* ------------------------------------------------------------------ remarks and examples *)
 
 (* a forged TTL 0 reaching a router is a dev-profile underflow (arp_router.rs:84) *)
-Lemma remark_ttl0_panics r p routers accepts topo :
+Lemma remark_ttl0_panics r p routers accepts (topo : nat -> N -> N -> N -> option node) :
   p_ttl p = 0 ->
   route_step (routers r) p = Panic site_ttl_sub /\
   trajectory routers accepts topo (NRouter r) p = ([], EPanic r site_ttl_sub).
@@ -787,11 +806,11 @@ Proof. vm_compute. split; reflexivity. Qed.
 
 (* the hypotheses of [delivered] are satisfiable: the line above, towards H1 *)
 Lemma ex_ranked :
-  ranked (cfg_router (ex_line 65535)) (cfg_accepts (ex_line 65535)) (cfg_topo (ex_line 65535))
+  ranked (cfg_router (ex_line 65535)) (cfg_accepts (ex_line 65535)) (fun _ => cfg_topo (ex_line 65535))
          (ex_pkt 30 18) 1 (fun r => r = 0 \/ r = 1) (fun r => if r =? 0 then 1%nat else 0%nat).
 Proof.
   split; [reflexivity |].
-  intros r p Pr (S1 & S2 & S3 & S4 & S5 & S6 & S7 & S8 & S9) T.
+  intros k r p Pr (S1 & S2 & S3 & S4 & S5 & S6 & S7 & S8 & S9) T.
   assert (W : wf_pkt (set_ttl p (p_ttl p - 1))).
   { split; cbn [p_totlen p_frag set_ttl]; [rewrite S4 | rewrite S7]; vm_compute; discriminate. }
   assert (L : wire_len (set_ttl p (p_ttl p - 1)) = 38).
